@@ -118,11 +118,13 @@ _built = {}
 
 
 def build_harness(release=True):
-    key = "release" if release else "debug"
+    """release: True (harness release profile) | False (debug) | "asrepo" (the release settings of the workspace under test:
+    opt-level 3, lto, one codegen unit -- stack use is measured under the settings the crates ship with)"""
+    key = release if isinstance(release, str) else ("release" if release else "debug")
     if key in _built:
         return _built[key]
     t0 = time.time()
-    cmd = ["cargo", "build", "--offline", "--quiet"] + (["--release"] if release else [])
+    cmd = ["cargo", "build", "--offline", "--quiet"] + (["--profile", key] if isinstance(release, str) else ["--release"] if release else [])
     env = dict(os.environ)
     env["CARGO_NET_OFFLINE"] = "true"
     p = subprocess.run(cmd, cwd=HARNESS_DIR, env=env, stdout=subprocess.PIPE, stderr=subprocess.STDOUT)
